@@ -1,6 +1,7 @@
 /-
-  Proofs/C01AbsGen.lean — property C01, "abstract positions" tier, part (1): on input satisfying `aSels` the generator
-  succeeds and returns exactly `aClass`; the marks it adds are exactly `needSids`.
+  Proofs/C01AbsGen.lean — property C01, "abstract positions" tier (extended by mixin fragments), part (1): on input satisfying
+  `aSels` the generator succeeds and returns exactly `aClass` (base classes = the mixin fragments spread in the class, `aBases`);
+  the marks it adds are exactly `needSids`; nothing is unpacked.
 -/
 import AriadneModel.Proofs.C01AbsDefs
 import AriadneModel.Proofs.C01PlainGen
